@@ -218,9 +218,11 @@ class Replayer(object):
                         bad(si, "objects %d (value %d) and %d (value %d): == gives %r, != gives %r"
                             % (i, vals[i - 1], j, vals[j - 1], e1, e2))
                 elif op == "pickle":
-                    R = pickle.loads(pickle.dumps(A))
+                    import copy as _copy
+                    R = [lambda: pickle.loads(pickle.dumps(A)), lambda: _copy.copy(A), lambda: _copy.deepcopy(A)][k % 3]()
                     if self.denote(R) != self.aff(res):
-                        bad(si, "a pickled-and-restored copy of object %d denotes %r instead of %r" % (i, self.denote(R), self.aff(res)))
+                        bad(si, "a copy of object %d (made by %s) denotes %r instead of %r"
+                            % (i, ["pickle", "copy.copy", "copy.deepcopy"][k % 3], self.denote(R), self.aff(res)))
                     keep(R, res, kinds[i - 1])
                 elif op == "newkey":
                     R = self.VK.from_public_point(A, self.curve)
